@@ -56,7 +56,7 @@ impl Engine for C03 {
         format!(
             "workspaces: every sequence of <= 3 statements over the {}-statement stress menu (self-parents, redefinitions, mutual references; quick: a third of the length-3 sequences), \
              the same menu as an included file under every root of <= 2 statements, every seed and small corpus file{}, every character-boundary prefix of every seed{}, \
-             every word of <= 2 statements over that menu and a second menu (bang-operator variables, untypable values, group let, if/else, defaults, bit ranges, widths and indices at the edge of the integer range) with at least one of the second; every operator spelling found in the server's lexer table in four operator forms; two included files with identical texts (the same names at the same offsets of different files); three prefixes of forward class declarations followed by every word of <= 2 statements; include statements inside defset / let / foreach / if / multiclass / class bodies with a longer included file; a top-level let that no record of its body takes, before an include and at the end of an included file; every single-token deletion/duplication/transposition/replacement of every seed, CRLF/non-ASCII variants, and the layouts in which every name is followed by a comment / by a line break and a line comment (seeds, stress words of <= 2 statements). Per workspace: diagnostics; per file symbols, folding, links; \
+             every word of <= 2 statements over that menu and a second menu (bang-operator variables, untypable values, group let, if/else, defaults, bit ranges, widths and indices at the edge of the integer range) with at least one of the second; every operator spelling found in the server's lexer table in four operator forms; two included files with identical texts (the same names at the same offsets of different files); three prefixes of forward class declarations followed by every word of <= 2 statements; include statements inside defset / let / foreach / if / multiclass / class bodies with a longer included file; a top-level let that no record of its body takes, before an include and at the end of an included file; every integer position of the grammar with every sign / separator / edge-of-range literal; nests of depth 3, 12 and 40 of twelve value forms (!cond, !if, lists, operators, dags, bits, class values) as a variable, a template argument and an override; every single-token deletion/duplication/transposition/replacement of every seed, CRLF/non-ASCII variants, and the layouts in which every name is followed by a comment / by a line break and a line comment (seeds, stress words of <= 2 statements). Per workspace: diagnostics; per file symbols, folding, links; \
              goto-definition, references, hover, completion (with and without '!') at every offset (texts <= 2 KiB) or token boundary +-1; inlay hints for every sub-range (texts <= 48 B) \
              or every empty/one-token/three-token/prefix/suffix/whole range at token boundaries. non-trivial = every workspace (all reach the indexer); distinct by construction.",
             crate::wspace::stress_menu().len(),
